@@ -86,6 +86,19 @@ Fixpoint group_push (k : str) (v : json) (d : list (str * list json)) : list (st
 
 Definition mem_key (k : ckey) (seen : list ckey) : bool := existsb (ckey_eqb k) seen.
 
+(* feed contexts one by one to a step function, stopping at the first Break *)
+Fixpoint feed_with (p : list sstate -> ctx -> list sstate * list ctx * decision)
+         (cs : list ctx) (ss : list sstate) : list sstate * list ctx * decision :=
+  match cs with
+  | [] => (ss, [], Continue)
+  | c :: t =>
+      let '(ss1, o, d) := p ss c in
+      match d with
+      | Break => (ss1, o, Break)
+      | Continue => let '(ss2, o2, d2) := feed_with p t ss1 in (ss2, o ++ o2, d2)
+      end
+  end.
+
 (* process: returns the new states, the contexts delivered to the printer, the decision *)
 Fixpoint process (sts : list stage) (ss : list sstate) (c : ctx) {struct sts}
   : list sstate * list ctx * decision :=
@@ -96,17 +109,7 @@ Fixpoint process (sts : list stage) (ss : list sstate) (c : ctx) {struct sts}
   | SSplit e :: sts', s :: ss' =>
       match get e c with
       | Some (JArr l) =>
-          let fix go (ys : list json) (ss' : list sstate) (acc : list ctx) {struct ys} :=
-            match ys with
-            | [] => (ss', acc, Continue)
-            | y :: ys' =>
-                let '(ss2, o, d) := process sts' ss' (with_input c y) in
-                match d with
-                | Break => (ss2, acc ++ o, Break)
-                | Continue => go ys' ss2 (acc ++ o)
-                end
-            end in
-          let '(ss2, o, d) := go l ss' [] in (s :: ss2, o, d)
+          let '(ss2, o, d) := feed_with (process sts' ) (map (with_input c) l) ss' in (s :: ss2, o, d)
       | _ => (ss, [], Continue)
       end
   | SFilter e :: sts', s :: ss' =>
